@@ -68,6 +68,26 @@ pub async fn history(a: &mut LocalAccount, seed: u64, with_attachment: bool) -> 
     Ok(())
 }
 
+/// a server list (one or two servers; none when `servers` is false) and three account preferences next to the account
+pub async fn add_extras(target: &BackendTarget, id: &sos_core::AccountId, seed: u64, servers: bool) -> anyhow::Result<()> {
+    use sos_core::RemoteOrigins;
+    use sos_preferences::{Preference, PreferenceManager};
+    if servers {
+        let mut so = sos_backend::ServerOrigins::new(target.clone(), id);
+        so.add_server(sos_core::Origin::new("verif-server".into(), "https://sync.example.com:5053/".parse().unwrap())).await.map_err(|e| anyhow::anyhow!(e.to_string()))?;
+        if seed % 3 == 0 { so.add_server(sos_core::Origin::new("backup".into(), "http://10.0.0.7:5053/".parse().unwrap())).await.map_err(|e| anyhow::anyhow!(e.to_string()))?; }
+    }
+    let mut pm = sos_backend::Preferences::new(target.clone());
+    pm.new_account(id).await.map_err(|e| anyhow::anyhow!(e.to_string()))?;
+    if let Some(p) = pm.account_preferences(id).await {
+        let mut p = p.lock().await;
+        p.insert("verif.string".into(), Preference::String(format!("value-{seed}"))).await.map_err(|e| anyhow::anyhow!(e.to_string()))?;
+        p.insert("verif.flag".into(), Preference::Bool(seed % 2 == 0)).await.map_err(|e| anyhow::anyhow!(e.to_string()))?;
+        p.insert("verif.list".into(), Preference::StringList(vec!["a".into(), "ü".into()])).await.map_err(|e| anyhow::anyhow!(e.to_string()))?;
+    }
+    Ok(())
+}
+
 /// the attachments an account serves: (blob name, digest of the decrypted content), sorted
 pub async fn attachments(a: &LocalAccount) -> Result<Vec<(String, String)>, String> {
     use sos_sync::StorageEventLogs;
@@ -82,7 +102,7 @@ pub async fn attachments(a: &LocalAccount) -> Result<Vec<(String, String)>, Stri
 }
 
 /// (decrypted attachments, servers, account preferences) of an account on a backend target
-async fn extras(a: &LocalAccount, target: &BackendTarget, id: &sos_core::AccountId) -> Result<(Vec<(String, String)>, Vec<String>, Vec<(String, String)>), String> {
+pub async fn extras(a: &LocalAccount, target: &BackendTarget, id: &sos_core::AccountId) -> Result<(Vec<(String, String)>, Vec<String>, Vec<(String, String)>), String> {
     use sos_core::RemoteOrigins;
     use sos_preferences::PreferenceManager;
     use sos_sync::StorageEventLogs;
@@ -128,7 +148,8 @@ pub async fn run_case(seed: u64, rep: &mut Report) -> anyhow::Result<()> {
     if synced { for _ in 0..3 { let r = w.sync(0).await; script.push(format!("sync -> {:?}", r)); } }
     // servers and account preferences stored next to the account
     let fs_target = { let a = w.devices[0].lock().await; a.backend_target().await };
-    {
+    add_extras(&fs_target, &w.account_id, seed, true).await?;
+    if false {
         use sos_core::RemoteOrigins;
         use sos_preferences::{Preference, PreferenceManager};
         let mut so = sos_backend::ServerOrigins::new(fs_target.clone(), &w.account_id);
